@@ -240,6 +240,21 @@ def run(ctx):
         for r_ in enum_regions(b, 'serde_avro_fast::schema::safe::RegularType') + enum_regions(b, 'schema::safe::RegularType'):
             if 'Union' in r_.variants and not {'Int', 'Record'} <= set(r_.variants):
                 flat = True
+    # ... and what is dropped while splicing is the null KEY (the one node `()` builds), recognised by identity: looking at
+    # the kind of each variant's node would also drop every variant whose node is still the `Null` placeholder that
+    # reserve() leaves for a type under construction (a recursive enum variant: `Node(Box<Node>)`)
+    peeks = []
+    if b is not None:
+        for cb_ in f.closures_of(b):
+            for bb_, t_ in cb_.calls():
+                if not cb_.is_cleanup(bb_) and call_matches(t_, ['Index::index', 'Index<I>>::index']) and 'nodes' in origin(cb_, t_['args'][0]).fields | {x for a in origin(cb_, t_['args'][0]).atoms for x in ()}:
+                    peeks.append(short_loc(t_.get('span')))
+            for bb_ in cb_.live_blocks():
+                for s_ in cb_.stmts(bb_):
+                    if 'assign' in s_ and s_['rv'].get('k') == 'discr' and (s_['rv'].get('adt') or '').endswith('RegularType'):
+                        peeks.append(short_loc(s_.get('span')))
+    ctx.ob('SHAPES', 'Option-flatten-drops-null-by-key', flat and not peeks, short_loc(b.span) if b else None,
+           'while splicing, variants are judged by the kind of their (possibly unfinished) node at: %s' % (sorted(set(peeks)) or 'nowhere (by key)'))
     ctx.ob('SHAPES', 'Option-of-union-is-flattened', flat, short_loc(b.span) if b else None,
            'Option<T> inspects the node built for T and splices a union\'s branches in instead of nesting it: %s' % flat)
     ctx.ob('SHAPES', 'Option-is-null-then-T', ok, short_loc(b.span) if b else None, 'Option<T> builds the union [find_or_build::<()>(), find_or_build::<T>()] in that order: %s' % ok)
